@@ -773,7 +773,7 @@ def seq_signature(line, out):
     return None
 
 def lockstep(ctx, harness, model):
-    lines = corpus_lines() + gen_seqs(ctx)
+    lines = [l for l in corpus_lines() if l.split()[1] != "keylie"] + gen_seqs(ctx)
     for kind in KIND_KEYS:
         for hk in "JG":
             if kind not in ("margs",):
@@ -904,6 +904,94 @@ def lockstep(ctx, harness, model):
     elif not model:
         ctx.obligation("corr:lockstep.trap-log==layer-model", "correspondence", False, "Lean driver unavailable")
 
+
+# ------------------------------------------------------------------------------------------------
+# correspondence A': the own-keys invariant end-to-end on EVERY target kind (incl. proxies as targets and Go wrappers)
+# ------------------------------------------------------------------------------------------------
+
+KEYLIE_KINDS = list(KIND_KEYS.keys()) + ["gomap", "gostruct", "goslice"]
+KEYLIE_VARIANTS = ["omit%d" % i for i in range(10)] + ["honest", "perm", "dup", "extra", "empty"]
+
+def gen_keylie(ctx):
+    L = [l for l in corpus_lines() if l.split()[1] == "keylie"]     # regression seeds first
+    rot = 0
+    for kind in KEYLIE_KINDS:
+        for inner in (0, 1, 2):
+            for hk in "JG":
+                for ne in "01":
+                    for v in KEYLIE_VARIANTS:
+                        L.append("Q keylie %s %d %s %s,%s,r" % (kind, inner, hk, v, ne))
+                        if v.startswith("omit") or ctx.tier == "thorough":
+                            rot += 1
+                            if ctx.tier == "thorough":
+                                for api in "nsk":
+                                    L.append("Q keylie %s %d %s %s,%s,%s" % (kind, inner, hk, v, ne, api))
+                            elif rot % 2 == 0:
+                                L.append("Q keylie %s %d %s %s,%s,%s" % (kind, inner, hk, v, ne, "nsk"[(rot // 2) % 3]))
+    return L
+
+def keylie_expected(out, api):
+    """spec answer (§10.5.11 steps 9-23) from the facts the harness printed: (expected, ok?)"""
+    res, ext, tk, lie = out.split("#")
+    ext = ext == "ext=1"
+    tk = [(t.rsplit(":", 1)[0], t.rsplit(":", 1)[1] == "1") for t in tk.split(",") if t]
+    lie = [k for k in lie.split(",") if k]
+    accept = len(set(lie)) == len(lie) and all(c or k in lie for k, c in tk)
+    if accept and not ext:
+        accept = set(lie) == set(k for k, _ in tk)
+    if not accept:
+        return "T:TypeError", res == "T:TypeError"
+    if api == "r":
+        exp = "k:" + ",".join(lie)
+        return exp, res == exp
+    return "k:...", res.startswith("k:")
+
+def keylie(ctx, harness):
+    lines = gen_keylie(ctx)
+    t0 = time.time()
+    out, err = run_sharded(ctx, harness, lines, shards=8)
+    ctx.stats["keylie_harness_s"] = round(time.time() - t0, 1)
+    if out is None:
+        ctx.obligation("corr:ownkeys-all-kinds.harness-run", "correspondence", False, err)
+        return
+    bad, n, kinds, outcomes = [], 0, {}, {}
+    for l, o in zip(lines, out):
+        if o == "NA":
+            continue
+        n += 1
+        f = l.split()
+        api = f[5].split(",")[2]
+        if o.count("#") != 3:
+            bad.append((l, o, "well-formed answer"))
+            continue
+        exp, ok = keylie_expected(o, api)
+        kinds[f[2]] = kinds.get(f[2], 0) + 1
+        outcomes[exp[:2]] = outcomes.get(exp[:2], 0) + 1
+        ctx.nontriv(l)
+        if not ok:
+            bad.append((l, o, exp))
+    ctx.count(n)
+    ctx.stats["keylie_cases"] = n
+    ctx.stats["keylie_by_kind"] = kinds
+    ctx.stats["keylie_expected_outcomes"] = outcomes
+    if lines:
+        ctx.sample({"ownkeys-case": lines[len(lines) // 3], "answer": out[len(lines) // 3][:160]})
+    ctx.obligation("corr:ownkeys-all-kinds.impl==spec", "correspondence", not bad,
+                   "" if not bad else "; ".join("%s -> %s (spec: %s)" % (l, o[:160], e) for l, o, e in bad[:5]))
+    seen = set()
+    for l, o, exp in bad:
+        f = l.split()
+        v = f[5].split(",")[0]
+        got = o.split("#")[0]
+        cls = "accepted a key list that omits a non-configurable own key" if (v.startswith("omit") or v == "empty") and got.startswith("k:") \
+            else "rejected a key list the spec admits" if got.startswith("T:") and not exp.startswith("T:") else "wrong outcome"
+        sig = "C11/ownKeys on target kind %s (%s inner layers): %s" % (f[2], f[3], cls)
+        if sig in seen or len(seen) >= 8:
+            continue
+        seen.add(sig)
+        ctx.violation(sig, "%s -> %s; ECMA-262 §10.5.11 requires %s" % (l, o[:200], exp),
+                      {"kind": "input", "ops": [l], "observed": o, "expected": exp})
+
 # ------------------------------------------------------------------------------------------------
 # main
 # ------------------------------------------------------------------------------------------------
@@ -943,6 +1031,7 @@ def main(ctx):
     if harness is None:
         return ctx.finish(level="proof", rule="harness did not build")
     lattice(ctx, harness, model)
+    keylie(ctx, harness)
     lockstep(ctx, harness, model)
     return ctx.finish(level="proof",
                       rule="lattice: exhaustive product of the abstract domain (descriptor fields x target property shape x extensibility x trap result) for the white-box calls, "
@@ -951,6 +1040,13 @@ def main(ctx):
 def history_problems(line, out):
     """problems of one lock-step history given the harness answer (no Lean needed)"""
     f = line.split()
+    if f[1] == "keylie":
+        if out == "NA":
+            return []
+        if out.count("#") != 3:
+            return [out]
+        exp, ok = keylie_expected(out, f[5].split(",")[2])
+        return [] if ok else ["own-keys invariant: observed %s, ECMA-262 §10.5.11 requires %s" % (out.split("#")[0], exp)]
     if f[1] == "revoked":
         return [] if out.startswith("OK") else ["revoked proxy did not throw TypeError on: " + out]
     if not out.startswith("OK "):
